@@ -505,6 +505,158 @@ done:
     zv_armed = 0; free(src); free(dst);
 }
 
+/* ---------------------------------------------------------------------------------------------------------
+ * round 3.  MTF from to k ldm : ZSTD_sizeof_CCtx of a heap multithreaded CCtx whose worker count changes from -> to while
+ *   the k-th allocation of the resizing session fails (k = 0: none fails).  The failed session must answer
+ *   memory_allocation (or succeed when k is beyond the last allocation); the context stays a live object: its reported
+ *   size must be obtainable and >= the bytes the counting allocator holds, the next session must succeed and
+ *   ZSTD_freeCCtx must release everything.
+ *   prints  r1 r2 so/live  r3 so/live  end=live badfree */
+static volatile long zv_failAt = -1; static volatile long zv_allocNo = 0;
+static void* zv_fmalloc(void* op, size_t sz) { long const n = __sync_add_and_fetch(&zv_allocNo, 1); if (zv_failAt >= 0 && n == zv_failAt) return NULL; return zv_cmalloc(op, sz); }
+static void do_mtf(char** a) {
+    int from = (int)hx(a[1]), to = (int)hx(a[2]); long k = (long)hx(a[3]); int ldm = (int)hx(a[4]);
+    zv_count cnt; ZSTD_customMem cm; ZSTD_CCtx* c; size_t const n = 1 << 20; unsigned char* src = (unsigned char*)malloc(n); size_t const cap = ZSTD_compressBound(n);
+    unsigned char* dst = (unsigned char*)malloc(cap); size_t r1, r2, r3, so; long used;
+    memset(&cnt, 0, sizeof cnt); cm.customAlloc = zv_fmalloc; cm.customFree = zv_cfree; cm.opaque = &cnt;
+    gen_data(src, n, 21); zv_failAt = -1; zv_allocNo = 0;
+    c = ZSTD_createCCtx_advanced(cm);
+    ZSTD_CCtx_setParameter(c, ZSTD_c_compressionLevel, 1);
+    if (ldm) { ZSTD_CCtx_setParameter(c, ZSTD_c_enableLongDistanceMatching, 1); ZSTD_CCtx_setParameter(c, ZSTD_c_windowLog, 20); }
+    ZSTD_CCtx_setParameter(c, ZSTD_c_nbWorkers, from);
+    r1 = ZSTD_compress2(c, dst, cap, src, n);
+    ZSTD_CCtx_setParameter(c, ZSTD_c_nbWorkers, to);
+    used = zv_allocNo; zv_failAt = k ? used + k : -1;
+    r2 = ZSTD_compress2(c, dst, cap, src, n);
+    zv_failAt = -1; used = zv_allocNo - used;
+    printf("r1=%s r2=%s allocs=%lx ", ecode(r1), ecode(r2), used); fflush(stdout);
+    zv_armed = 1;
+    if (sigsetjmp(zv_jmp, 1)) { zv_armed = 0; printf("SIZEOF-SEGV live=%llx\n", (u64)cnt.live); goto done; }   /* the context is abandoned */
+    so = ZSTD_sizeof_CCtx(c);
+    printf("%s/%llx/%llx ", so < cnt.live ? "UNDER" : "ok", (u64)so, (u64)cnt.live);
+    r3 = ZSTD_compress2(c, dst, cap, src, n);
+    so = ZSTD_sizeof_CCtx(c);
+    printf("r3=%s %s/%llx/%llx ", ecode(r3), so < cnt.live ? "UNDER" : "ok", (u64)so, (u64)cnt.live);
+    zv_armed = 0;
+    ZSTD_freeCCtx(c);
+    printf("end=%llx badfree=%llx\n", (u64)cnt.live, (u64)cnt.badFree);
+done:
+    zv_armed = 0; free(src); free(dst);
+}
+
+/* ---------------------------------------------------------------------------------------------------------
+ * round 3.  CHIS op op ... : ownership history on one HEAP CCtx created with the counting allocator (direct oracle only):
+ *   after every operation, once all workers are idle, ZSTD_sizeof_CCtx >= bytes the allocator holds; ZSTD_freeCCtx -> 0.
+ *   op:  W<n> nbWorkers   G<0|1> long-distance matching   V<level>   w<windowLog>   J<jobSize>
+ *        D<size>/<byRef> ZSTD_CCtx_loadDictionary_advanced(raw)   P<size> refPrefix   K<size> refCDict(external CDict)  k refCDict(NULL)
+ *        T<0|1|2> ZSTD_CCtx_refThreadPool(NULL | pool A (2 threads) | pool B (3 threads))
+ *        C<size> ZSTD_compress2   S<size> ZSTD_compressStream2(continue) offering ONE byte of output (frame left open)
+ *        E ZSTD_compressStream2(end) until done   Rs / Rp ZSTD_CCtx_reset(session_only / session_and_parameters)
+ *        U<size>/<dictSize> ZSTD_compress_usingDict(level 3)   A<size>/<hashLog> ZSTD_compress_advanced(fast, that hashLog)   (both after ZSTD_CCtx_reset(session_only))
+ *        Y<level> ZSTD_CCtx_reset(session_only), ZSTD_copyCCtx(this <- a fresh context of the same allocator after ZSTD_compressBegin(level)), ZSTD_compressEnd(1000 bytes)
+ *        X<size> ZSTD_CCtx_setParametersUsingCCtxParams(level 5, nbWorkers 2, LDM) then compress2
+ *        !<k> the k-th allocation made by the NEXT operation fails (that operation may answer memory_allocation; the context
+ *             stays a live object: its size must be obtainable, later operations may succeed, ZSTD_freeCCtx releases everything)
+ *   per op:  <rc>/<live>/<sizeof>  */
+static void do_chis(char** a, int n) {
+    zv_count cnt; ZSTD_customMem cm; ZSTD_CCtx* c; int i; size_t const maxN = 6u << 20; unsigned char* src = (unsigned char*)malloc(maxN);
+    size_t const cap = ZSTD_compressBound(maxN); unsigned char* dst = (unsigned char*)malloc(cap); unsigned char* dict = (unsigned char*)malloc(1 << 20);
+    ZSTD_threadPool* tp[3] = { NULL, NULL, NULL }; ZSTD_CDict* cds[16]; int ncd = 0; int under = 0;
+    long pendingFail = 0;   /* token !<k> : the k-th allocation of the NEXT operation fails */
+    int pollOK = 1;   /* ZSTD_getFrameProgression dereferences the multithreaded context that ZSTD_CCtx_refThreadPool has just dropped (not a C14 matter, reported): do not poll then */
+    memset(&cnt, 0, sizeof cnt); cm.customAlloc = zv_fmalloc; cm.customFree = zv_cfree; cm.opaque = &cnt;
+    zv_failAt = -1; zv_allocNo = 0;
+    gen_data(src, maxN, 31); gen_data(dict, 1 << 20, 32);
+    tp[1] = ZSTD_createThreadPool(2); tp[2] = ZSTD_createThreadPool(3);
+    c = ZSTD_createCCtx_advanced(cm);
+    for (i = 1; i < n; i++) {
+        char k = a[i][0]; size_t rc = 0; char* sl = strchr(a[i], '/'); size_t v = (size_t)hx(a[i] + 1); size_t v2 = sl ? (size_t)hx(sl + 1) : 0; size_t so, lv; int spin;
+        if (v > maxN && strchr("CSUAX", k)) v = maxN;
+        if (k == '!') { pendingFail = (long)v; continue; }
+        if (pendingFail) { zv_failAt = zv_allocNo + pendingFail; pendingFail = 0; }
+        zv_armed = 1;
+        if (sigsetjmp(zv_jmp, 1)) { zv_armed = 0; zv_failAt = -1; printf("SEGV@%d:%s live=%llx\n", i, a[i], (u64)cnt.live); goto abandoned; }   /* the context is abandoned */
+        if (k == 'W') rc = ZSTD_CCtx_setParameter(c, ZSTD_c_nbWorkers, (int)v);
+        else if (k == 'G') rc = ZSTD_CCtx_setParameter(c, ZSTD_c_enableLongDistanceMatching, (int)v);
+        else if (k == 'V') rc = ZSTD_CCtx_setParameter(c, ZSTD_c_compressionLevel, (int)hxs(a[i] + 1));
+        else if (k == 'w') rc = ZSTD_CCtx_setParameter(c, ZSTD_c_windowLog, (int)v);
+        else if (k == 'J') rc = ZSTD_CCtx_setParameter(c, ZSTD_c_jobSize, (int)v);
+        else if (k == 'D') rc = ZSTD_CCtx_loadDictionary_advanced(c, dict, v > (1 << 20) ? (1 << 20) : v, v2 ? ZSTD_dlm_byRef : ZSTD_dlm_byCopy, ZSTD_dct_rawContent);
+        else if (k == 'P') rc = ZSTD_CCtx_refPrefix(c, dict, v > (1 << 20) ? (1 << 20) : v);
+        else if (k == 'K') { if (ncd < 16) { cds[ncd] = ZSTD_createCDict(dict, v > (1 << 20) ? (1 << 20) : v, 3); rc = ZSTD_CCtx_refCDict(c, cds[ncd]); ncd++; } }
+        else if (k == 'k') rc = ZSTD_CCtx_refCDict(c, NULL);
+        else if (k == 'T') rc = ZSTD_CCtx_refThreadPool(c, tp[v % 3]);
+        else if (k == 'C') rc = ZSTD_compress2(c, dst, cap, src, v);
+        else if (k == 'S') { ZSTD_inBuffer in = { src, v, 0 }; ZSTD_outBuffer out = { dst, 1, 0 }; rc = ZSTD_compressStream2(c, &out, &in, ZSTD_e_continue); }
+        else if (k == 'E') { ZSTD_inBuffer in = { src, 0, 0 }; int g = 0; do { ZSTD_outBuffer out = { dst, cap, 0 }; rc = ZSTD_compressStream2(c, &out, &in, ZSTD_e_end); } while (!ZSTD_isError(rc) && rc != 0 && ++g < 1000); }
+        else if (k == 'R') rc = ZSTD_CCtx_reset(c, a[i][1] == 'p' ? ZSTD_reset_session_and_parameters : ZSTD_reset_session_only);
+        else if ((k == 'U' || k == 'A') && (ZSTD_CCtx_reset(c, ZSTD_reset_session_only), 0)) { }   /* a one-shot call inside an open streaming frame is a misuse that is not examined here (reported, not C14) */
+        else if (k == 'U') rc = ZSTD_compress_usingDict(c, dst, cap, src, v, dict, v2 > (1 << 20) ? (1 << 20) : v2, 3);
+        else if (k == 'A') { ZSTD_parameters p; memset(&p, 0, sizeof p); p.cParams = ZSTD_getCParams(1, v, 0); p.cParams.hashLog = (unsigned)v2; p.fParams.contentSizeFlag = 1;
+            rc = ZSTD_isError(ZSTD_checkCParams(p.cParams)) ? 0 : ZSTD_compress_advanced(c, dst, cap, src, v, NULL, 0, p); }
+        else if (k == 'Y') { ZSTD_CCtx* tmp = ZSTD_createCCtx_advanced(cm);   /* same allocator on both sides: see CPC for different ones */
+            /* the destination must not be in the middle of a frame (copying into an open streaming session is a misuse, not examined here) */
+            for (spin = 0; pollOK && spin < 4000 && ZSTD_getFrameProgression(c).nbActiveWorkers != 0; spin++) usleep(500);
+            ZSTD_CCtx_reset(c, ZSTD_reset_session_only);
+            rc = tmp ? ZSTD_compressBegin(tmp, (int)hxs(a[i] + 1)) : ERROR(memory_allocation); if (!ZSTD_isError(rc)) rc = ZSTD_copyCCtx(c, tmp, 0); ZSTD_freeCCtx(tmp);
+            if (!ZSTD_isError(rc)) rc = ZSTD_compressEnd(c, dst, cap, src, 1000); }
+        else if (k == 'X') { ZSTD_CCtx_params* p = ZSTD_createCCtxParams(); ZSTD_CCtxParams_init(p, 5); ZSTD_CCtxParams_setParameter(p, ZSTD_c_nbWorkers, 2);
+            ZSTD_CCtxParams_setParameter(p, ZSTD_c_enableLongDistanceMatching, 1); rc = ZSTD_CCtx_setParametersUsingCCtxParams(c, p); ZSTD_freeCCtxParams(p);
+            if (!ZSTD_isError(rc)) rc = ZSTD_compress2(c, dst, cap, src, v); }
+        else { printf("BADTOKEN "); zv_armed = 0; continue; }
+        zv_failAt = -1;
+        /* the copy applies the destination's requested nbWorkers without creating a multithreaded context: same inspector crash (reported, not C14) */
+        if ((k == 'T' || k == 'Y') && !ZSTD_isError(rc)) pollOK = 0;
+        if (strchr("CSEUAX", k) && !ZSTD_isError(rc)) pollOK = 1;
+        for (spin = 0; pollOK && spin < 4000 && ZSTD_getFrameProgression(c).nbActiveWorkers != 0; spin++) usleep(500);
+        usleep(1000);
+        so = ZSTD_sizeof_CCtx(c); lv = cnt.live;
+        printf("%s/%llx/%llx ", ZSTD_isError(rc) ? ecode(rc) : "OK", (u64)lv, (u64)so);
+        zv_armed = 0;
+        if (so < lv) { under = 1; printf("UNDER@%d:%s missing=%llx ", i, a[i], (u64)(lv - so)); break; }
+    }
+    zv_armed = 0;
+    ZSTD_freeCCtx(c);
+    printf("%s end=%llx badfree=%llx\n", under ? "UNDER" : "fine", (u64)cnt.live, (u64)cnt.badFree);
+abandoned:
+    zv_armed = 0;
+    for (i = 0; i < ncd; i++) ZSTD_freeCDict(cds[i]);
+    ZSTD_freeThreadPool(tp[1]); ZSTD_freeThreadPool(tp[2]); free(src); free(dst); free(dict);
+}
+
+/* ---------------------------------------------------------------------------------------------------------
+ * round 3.  CPC dir : ZSTD_copyCCtx between contexts of different allocators; the destination must keep its own
+ *   a: dst custom <- src default    b: dst default <- src custom    s: dst custom <- src static    t: dst static <- src custom
+ *   prints plain=<malloc/calloc calls that did not come from the counting allocator, made by the copy and the compression
+ *   that follows> taken=<blocks the counting allocator handed out meanwhile> then what is left after the frees */
+static void do_cpc(char** a) {
+    char dir = a[1][0]; zv_count cnt; ZSTD_customMem cm; ZSTD_CCtx* d = NULL; ZSTD_CCtx* s = NULL; size_t rc, r2; size_t n0, plain, taken;
+    static unsigned char src[20000]; static unsigned char dst[40000]; void* sbuf = NULL; size_t const ssz = ZSTD_estimateCCtxSize(3);
+    memset(&cnt, 0, sizeof cnt); cm.customAlloc = zv_cmalloc; cm.customFree = zv_cfree; cm.opaque = &cnt;
+    gen_data(src, sizeof src, 41);
+    if (dir == 's' || dir == 't') { sbuf = malloc(ssz); memset(sbuf, 0x5a, ssz); }
+    d = (dir == 'a' || dir == 's') ? ZSTD_createCCtx_advanced(cm) : (dir == 't') ? ZSTD_initStaticCCtx(sbuf, ssz) : ZSTD_createCCtx();
+    s = (dir == 'a') ? ZSTD_createCCtx() : (dir == 's') ? ZSTD_initStaticCCtx(sbuf, ssz) : ZSTD_createCCtx_advanced(cm);
+    if (!d || !s) { printf("NULL\n"); free(sbuf); return; }
+    rc = ZSTD_compressBegin(s, 3);
+    n0 = cnt.nAlloc; zv_mcalls = 0; zv_watch = 1;
+    if (!ZSTD_isError(rc)) rc = ZSTD_copyCCtx(d, s, ZSTD_CONTENTSIZE_UNKNOWN);
+    r2 = ZSTD_isError(rc) ? rc : ZSTD_compressEnd(d, dst, sizeof dst, src, sizeof src);
+    zv_watch = 0; taken = cnt.nAlloc - n0; plain = zv_mcalls - taken;     /* the counting allocator itself calls malloc once per block */
+    printf("copy=%s end=%s plain=%llx taken=%llx ", ecode(rc), ecode(r2), (u64)plain, (u64)taken);
+    if (dir == 'a' || dir == 's') {     /* the custom destination must not have used plain malloc; if it did, freeing it would hand blocks to the wrong allocator: leave it */
+        if (dir == 'a') ZSTD_freeCCtx(s);
+        if (plain == 0) { ZSTD_freeCCtx(d); printf("live=%llx badfree=%llx\n", (u64)cnt.live, (u64)cnt.badFree); }
+        else printf("dst-not-freed live=%llx\n", (u64)cnt.live);
+    } else if (dir == 'b') {            /* the default destination must not hold blocks of the source's allocator once the source is gone */
+        size_t afterSrc; ZSTD_freeCCtx(s); afterSrc = cnt.live; ZSTD_freeCCtx(d);
+        printf("live-after-src-freed=%llx live=%llx badfree=%llx\n", (u64)afterSrc, (u64)cnt.live, (u64)cnt.badFree);
+    } else {                            /* static destination: no allocation at all */
+        ZSTD_freeCCtx(s); printf("live=%llx badfree=%llx\n", (u64)cnt.live, (u64)cnt.badFree);
+    }
+    free(sbuf);
+}
+
 int main(void) {
     static char line[1 << 16]; char* a[4096];
     struct sigaction sa; memset(&sa, 0, sizeof sa); sa.sa_sigaction = zv_segv; sa.sa_flags = SA_SIGINFO | SA_NODEFER; sigemptyset(&sa.sa_mask);
@@ -526,6 +678,9 @@ int main(void) {
         else if (!strcmp(a[0], "OSZ")) do_osz(a);
         else if (!strcmp(a[0], "MTI")) do_mti(a);
         else if (!strcmp(a[0], "ADV")) do_adv(a);
+        else if (!strcmp(a[0], "MTF")) do_mtf(a);
+        else if (!strcmp(a[0], "CHIS")) do_chis(a, n);
+        else if (!strcmp(a[0], "CPC")) do_cpc(a);
         else if (!strcmp(a[0], "DICTLEN")) printf("%llx\n", (u64)zv_dictLen);
         else if (!strcmp(a[0], "SIZES")) printf("%llx %llx\n", (u64)sizeof(ZSTD_DCtx), (u64)sizeof(ZSTD_DDictHashSet));
         else printf("UNKNOWN-CASE %s\n", a[0]);
